@@ -140,6 +140,8 @@ pub struct Exec<'p> {
     pub sys: Arc<crate::interpose::SysState>,
     /// every finding of every property stops the run (used for post-crash continuation runs)
     pub focus_any: bool,
+    /// memory hint of the build being evaluated
+    last_mem_hint: Option<usize>,
     /// long-lived Writer instances per index slot (when the plan says writers are reused across transactions)
     writers: Vec<Option<(Metric, std::rc::Rc<dyn std::any::Any>)>>,
 }
@@ -188,6 +190,9 @@ impl<'p> Exec<'p> {
             yield_every: plan.cfg.yield_every,
             ticks: Default::default(),
             observer: Default::default(),
+            leaf_batches: Default::default(),
+            cut_batches: Default::default(),
+            last_ordinal: Default::default(),
         });
         let n = plan.cfg.indexes.len();
         let sys = crate::interpose::activate(
@@ -223,6 +228,7 @@ impl<'p> Exec<'p> {
             cancel_budget_override: None,
             sys,
             focus_any: false,
+            last_mem_hint: None,
             writers: (0..n).map(|_| None).collect(),
         };
         ex.open_env();
@@ -237,6 +243,9 @@ impl<'p> Exec<'p> {
             yield_every: plan.cfg.yield_every,
             ticks: Default::default(),
             observer: Default::default(),
+            leaf_batches: Default::default(),
+            cut_batches: Default::default(),
+            last_ordinal: Default::default(),
         });
         let n = plan.cfg.indexes.len();
         let mut ex = Exec {
@@ -268,6 +277,7 @@ impl<'p> Exec<'p> {
             cancel_budget_override: None,
             sys,
             focus_any: true,
+            last_mem_hint: None,
             writers: (0..n).map(|_| None).collect(),
         };
         ex.open_env();
@@ -601,6 +611,11 @@ impl<'p> Exec<'p> {
             Ok(Err(e)) => {
                 if append && !append_ok && matches!(e, arroy::Error::InvalidItemAppend) {
                     self.out.stats.probe("append_rejected");
+                    if self.focus == "C19" {
+                        if let Some(b) = &before {
+                            self.out.stats.nontrivial.push(dump_hash(b) ^ 0xA99E);
+                        }
+                    }
                     self.post_op(ix, before, true, "rejected append_item")?;
                     self.check_staleness(ix)?;
                     self.op_boundary();
@@ -722,6 +737,11 @@ impl<'p> Exec<'p> {
             catch_unwind(AssertUnwindSafe(|| if append { w.append_item(wtxn, id, &vec) } else { w.add_item(wtxn, id, &vec) }))
         });
         self.out.stats.probe("rejected_dimension");
+        if self.focus == "C19" {
+            if let Some(b) = &before {
+                self.out.stats.nontrivial.push(dump_hash(b) ^ len as u64);
+            }
+        }
         match res {
             Ok(Err(arroy::Error::InvalidVecDimension { expected, received })) => {
                 if expected != im.dim || received != len {
@@ -837,6 +857,12 @@ impl<'p> Exec<'p> {
             m.last_n_trees = None;
         }
         self.metric_changed[ix] = true;
+        if self.focus == "C18" {
+            let mut h = Fnv::new();
+            h.write_str(&format!("{:?}->{:?}", im.metric, to));
+            h.write_u64(before.as_ref().map_or(0, |b| dump_hash(&decode::dump_of_index(b, im.index))));
+            self.out.stats.nontrivial.push(h.finish());
+        }
         // forest and metadata gone
         let after = self.dump_current();
         let mine = decode::dump_of_index(&after, im.index);
@@ -1110,6 +1136,8 @@ impl<'p> Exec<'p> {
         fault: &Fault,
     ) -> R<()> {
         self.ensure_txn();
+        self.last_mem_hint = mem;
+        self.ctx.leaf_batches.store(0, Ordering::SeqCst);
         let before_model = self.world.indexes[ix].clone();
         let before = self.pre_dump();
         self.trace_step("build");
@@ -1139,6 +1167,12 @@ impl<'p> Exec<'p> {
                     m.builds += 1;
                 }
                 self.last_build = Some(res);
+                if mem.is_some() {
+                    self.out.stats.probe("build_with_memory_hint");
+                    if self.ctx.cut_batches.swap(0, Ordering::SeqCst) > 0 {
+                        self.out.stats.probe("leaf_batch_cut_by_memory_hint");
+                    }
+                }
                 self.after_build(ix, n_trees, split_after, mem, before.as_ref())?;
                 self.post_op(ix, before, false, "build")?;
             }
@@ -1319,6 +1353,14 @@ impl<'p> Exec<'p> {
         if im.builds >= 2 && touched_split && fresh_build {
             self.out.stats.shape_hashes.push(fw.shape_hash());
         }
+        match self.focus.as_str() {
+            "C02" if touched_split => self.out.stats.nontrivial.push(sh),
+            "C03" if touched_split || fw.trees.len() >= 2 => self.out.stats.nontrivial.push(sh),
+            "C14" if self.last_mem_hint.is_some() && fresh_build => self.out.stats.nontrivial.push(sh),
+            "C20" if self.profiles[ix].is_some_and(|p| p.degenerate()) => self.out.stats.nontrivial.push(sh),
+            "C16" | "C05" | "C06" | "C07" => self.out.stats.nontrivial.push(sh),
+            _ => {}
+        }
         // C15: bucket bound under a constant capacity
         if im.caps_used.len() == 1 {
             let cap = *im.caps_used.iter().next().unwrap() as u64;
@@ -1333,6 +1375,9 @@ impl<'p> Exec<'p> {
             match query::c04_audit(im.metric, di) {
                 Ok(rep) => {
                     self.out.stats.placements_checked += rep.placements_checked;
+                    if self.focus == "C04" && rep.placements_checked > 0 {
+                        self.out.stats.nontrivial.push(sh);
+                    }
                     c04 = Some(rep);
                 }
                 Err(e) => {
